@@ -332,11 +332,10 @@ Qed.
 
 Theorem disjoint_step_refines d sp o :
   DInv d -> DClosed d -> DHome d -> refine_scope o = true ->
-  (match o with OMatching _ g2 => sp_exists (sget sp g2) | _ => true end) = true ->
   RD d sp ->
   RD (fst (dstep d o)) (fst (spec_step sp o)) /\ snd (dstep d o) = snd (spec_step sp o).
 Proof.
-  intros HI Hcl Hhome Hsc Hpart HR.
+  intros HI Hcl Hhome Hsc HR.
   assert (HX : forall g, abs_nxg (dget d g) g = sget sp g) by exact HR.
   assert (Hnd : forall g, NoDup (ids (dget d g))) by (intro g; apply (HI g)).
   destruct o; cbn in Hsc; try discriminate; cbn [dstep spec_step] in *.
@@ -401,17 +400,15 @@ Proof.
   - split; [exact HR|]. cbn [snd]. rewrite <- (HX g). now apply sim_node_exists.
   - split; [exact HR|]. cbn [snd]. rewrite <- (HX g). now apply sim_unique.
   - split; [exact HR|]. cbn [snd]. rewrite <- (HX g). f_equal. f_equal. now apply sim_graph_exists.
-  - (* matching: the partner holds nodes, and all of them carry its graph id *)
+  - (* matching: all nodes stored under the partner's id carry its graph id *)
     split; [exact HR|]. cbn [snd]. unfold d_matching, sp_matching. rewrite <- (HX g), <- (HX g2) in *.
     rewrite (sim_list_ids (dget d g) g (Hnd g)).
     destruct (sp_list_ids (abs_nxg (dget d g) g)) as [[| |mine| |]|e]; try reflexivity.
     destruct (negb (forallb hashable mine)); [reflexivity|].
     assert (Ev : fst (view (dget d g2) g2) = gn (dget d g2)).
     { unfold view. cbn [fst]. apply filter_all_true. apply (Hhome g2). }
-    unfold abs_nxg, abs_of_view in *. cbn [sn] in *. rewrite Ev in *.
-    unfold sp_exists in Hpart. cbn [sn] in Hpart.
-    destruct (gn (dget d g2)) as [|nd r]; [discriminate|].
-    symmetry. exact (matching_result_snd mine (nd :: r)).
+    unfold abs_nxg, abs_of_view. cbn [sn]. rewrite Ev.
+    symmetry. exact (matching_result_snd mine (gn (dget d g2))).
 Qed.
 
 Lemma refine_nid_scope o : refine_scope o = true -> nid_scope o = true.
@@ -441,14 +438,12 @@ Qed.
 
 Theorem disjoint_refines_run ops : forall d sp,
   DInv d -> DClosed d -> DHome d -> RD d sp -> (forall o, In o ops -> refine_scope o = true) ->
-  partners_exist sp ops = true ->
   dresults d ops = spec_results sp ops /\ RD (drun ops d) (spec_run ops sp).
 Proof.
-  induction ops as [|o r IH]; intros d sp HI Hcl Hh HR Hsc Hp;
-    cbn [dresults spec_results drun spec_run fold_left partners_exist] in *; [auto|].
+  induction ops as [|o r IH]; intros d sp HI Hcl Hh HR Hsc;
+    cbn [dresults spec_results drun spec_run fold_left] in *; [auto|].
   assert (Ho : refine_scope o = true) by (apply Hsc; now left).
-  apply andb_true_iff in Hp as [Hp1 Hp2].
-  destruct (disjoint_step_refines d sp o HI Hcl Hh Ho Hp1 HR) as [HR' Hres].
+  destruct (disjoint_step_refines d sp o HI Hcl Hh Ho HR) as [HR' Hres].
   destruct (IH (fst (dstep d o)) (fst (spec_step sp o))) as [A B]; auto.
   - now apply DInv_step.
   - now apply closed_step_disjoint.
@@ -458,11 +453,11 @@ Proof.
 Qed.
 
 Theorem disjoint_refines_spec ops :
-  (forall o, In o ops -> refine_scope o = true) -> partners_exist [] ops = true ->
+  (forall o, In o ops -> refine_scope o = true) ->
   dresults init_dstore ops = spec_results [] ops /\
   forall g, abs_disjoint (drun ops init_dstore) g = sget (spec_run ops []) g.
 Proof.
-  intros H Hp. apply disjoint_refines_run; auto.
+  intros H. apply disjoint_refines_run; auto.
   - apply DInv_init.
   - intros g a b q [].
   - intro g. reflexivity.
@@ -470,10 +465,10 @@ Proof.
 Qed.
 
 Theorem backends_agree ops :
-  (forall o, In o ops -> refine_scope o = true) -> partners_exist [] ops = true ->
+  (forall o, In o ops -> refine_scope o = true) ->
   sresults init_store ops = dresults init_dstore ops /\
   forall g, abs_shared (srun ops init_store) g = abs_disjoint (drun ops init_dstore) g.
 Proof.
-  intros H Hp. destruct (shared_refines_spec ops H) as [A1 A2]. destruct (disjoint_refines_spec ops H Hp) as [B1 B2].
+  intros H. destruct (shared_refines_spec ops H) as [A1 A2]. destruct (disjoint_refines_spec ops H) as [B1 B2].
   split; [congruence | intro g; now rewrite A2, B2].
 Qed.
